@@ -35,10 +35,15 @@ def main():
         checks = args[args.index("--checks") + 1].split(",")
     if "--keep-as" in args:
         keep = args[args.index("--keep-as") + 1]
-    wt = f"/tmp/seedeval-{prop}-{os.getpid()}"
+    wt = "/tmp/seedeval-wt"          # fixed path and shared target dir: consecutive evaluations build incrementally
+    tgt = "/tmp/seedeval-target"
     summary = {"property": prop, "patch": patch, "checks": {}}
-    env = dict(os.environ, CARGO_NET_OFFLINE="true", CARGO_TARGET_DIR=wt + "/target")
+    env = dict(os.environ, CARGO_NET_OFFLINE="true", CARGO_TARGET_DIR=tgt)
+    if "--cfg-verif" in args:
+        env["RUSTFLAGS"] = "--cfg quandary_verif"
     try:
+        sh(["git", "-C", "/repo", "worktree", "remove", "--force", wt])
+        shutil.rmtree(wt, ignore_errors=True)
         rc, out = sh(["git", "-C", "/repo", "worktree", "add", "--detach", wt, "HEAD"])
         assert rc == 0, out
         os.makedirs(wt + "/tests", exist_ok=True)
@@ -62,7 +67,6 @@ def main():
         r = test_results(out)
         summary["suite"] = r
         summary["suite_still_passes"] = len(r) >= 3 and all(c == 0 for _, _, c in r) and sum(b for _, b, _ in r) >= 283
-        shutil.rmtree(wt + "/target", ignore_errors=True)
         for c in checks:
             t0 = time.time()
             rc, out = sh([os.path.join(VERIF, "check"), c], cwd=VERIF, env=dict(os.environ, QV_REPO=wt), timeout=3000)
